@@ -53,6 +53,8 @@ EXC_TYPES = {
 def make_num(arith):
     if arith == "exact":
         return lambda n, d=1: Exact(n, d)
+    if arith == "fraction":          # the standard library's own exact numbers (they do NOT absorb floats)
+        return lambda n, d=1: Fraction(n, d)
     if arith == "npfloat":
         return lambda n, d=1: np.float64(n) / np.float64(d)
     if arith == "npfloat32":       # single precision losses / outputs (C16 only: no reference values are compared)
